@@ -50,6 +50,11 @@ CHECKS = {
          "Held on the executions observed: Python/TS/JS classes and Rust struct+impl with public/private/dunder/constructor/property/static/class/async members, LOC padded to limit-2..limit+2 with blank and comment lines, keyword on/off and custom lists, per-language overrides in yaml/json; evidence counts classes per language and boundary deltas.",
          "Trusted: renderer ground truth (public methods, non-blank non-comment LOC); constructs the documentation is silent about are not generated.",
          "DESIGN.md section 4 C16"),
+
+ "C17": ("runtime monitoring: boundary trace of `thailint unwrap-abuse|clone-abuse|blocking-async` on generated Rust files with planted calls of known kind, line and context (test/async/loop/wrapper); exact (rule id, line) multiset oracle per option setting",
+         "Held on the executions observed: sync/async functions, impl methods, #[test]/#[tokio::test] mixed with other attributes and comments, #[cfg(test)] and plain modules (nested), loops of every kind, chains, look-alikes, blocking wrappers; allow_in_tests / allow_expect / detect_* swept in yaml/json with hyphen/underscore section names; evidence counts planted calls per kind and context.",
+         "Trusted: generator ground truth; clone statements constructed to fall into exactly one documented category; constructs the documentation is silent about are not generated.",
+         "DESIGN.md section 4 C17"),
 }
 PENDING = {}
 props = [json.loads(l) for l in open(os.path.join(HERE, "properties.jsonl"))]
